@@ -3,10 +3,12 @@ pub mod bankops;
 pub mod cfgsim;
 pub mod config;
 pub mod curve;
+pub mod delevsim;
 pub mod hops;
 pub mod oracle;
 pub mod panic;
 pub mod prefee;
+pub mod privsim;
 pub mod xrate;
 
 pub fn lookup(name: &str) -> Option<fn(&str) -> String> {
@@ -22,6 +24,8 @@ pub fn lookup(name: &str) -> Option<fn(&str) -> String> {
         "oracleliq" => oracle::run_liq,
         "config" => config::run,
         "cfgsim" => cfgsim::run,
+        "privsim" => privsim::run,
+        "delevsim" => delevsim::run,
         _ => return None,
     })
 }
